@@ -469,6 +469,12 @@ func (fx *FuncCtx) run() {
 			t := ce.boolOf(ce.ev(en.Expr), en.Expr)
 			fx.obligeSplit("post", fmt.Sprintf("post.%s@ret%d", lbl, r.ord), r.pos, r.st.pc, t, "postcondition at return: "+en.Text)
 		}
+		for _, dm := range con.Demonstrates {
+			ce := fx.clauseEv(pst, fx.decl.Body.Lbrace+1, r.vals)
+			t := ce.boolOf(ce.ev(dm.Expr), dm.Expr)
+			ob := fx.oblige("finding", fmt.Sprintf("finding.%s@ret%d", dm.Label, r.ord), r.pos, r.st.pc, t, "statement whose proof exhibits known finding "+dm.Finding+": "+dm.Text)
+			ob.FindingID = dm.Finding
+		}
 	}
 	// frame: heap locations written by the body must be listed in the modifies clause
 	if len(fx.heapWritten) > 0 {
@@ -800,8 +806,9 @@ const seqPrelude = `(declare-sort BSeq 0)
 (assert (forall ((b (Array Int Int)) (o Int) (l Int) (o2 Int) (l2 Int)) (! (=> (and (<= o o2) (<= 0 l2) (= (+ o2 l2) (+ o l))) (= (bs_val b o l) (bs_cat (bs_val b o (- o2 o)) (bs_val b o2 l2)))) :pattern ((bs_val b o l) (bs_val b o2 l2)))))
 `
 
-var builtinSpecOrder = []string{"sortedof", "fields_n", "iface_pack", "hexdigl", "hexdigu", "hex2lower", "hex6upper", "utf8enc", "utf8len", "utf8dec", "bs_nth"}
+var builtinSpecOrder = []string{"dyntype", "sortedof", "fields_n", "iface_pack", "hexdigl", "hexdigu", "hex2lower", "hex6upper", "utf8enc", "utf8len", "utf8dec", "bs_nth"}
 var builtinSpecs = map[string]string{
+	"dyntype":    "(declare-fun dyntype (Int) Int)",
 	"sortedof":   "(declare-fun joinof ((Array Int (Array Int Int)) (Array Int Int) (Array Int Int) Int BSeq) BSeq)",
 	"fields_n":   "(declare-fun fields_n (BSeq) Int)\n(declare-fun fields_b (BSeq) (Array Int (Array Int Int)))\n(declare-fun fields_o (BSeq) (Array Int Int))\n(declare-fun fields_l (BSeq) (Array Int Int))\n(assert (forall ((s BSeq)) (! (<= 0 (fields_n s)) :pattern ((fields_n s)))))",
 	"iface_pack": "(declare-fun iface_pack (Int BSeq) BSeq)",
